@@ -62,7 +62,7 @@ TECHNIQUE = ("Lean 4 proof: guard-carrying models = documented-precondition spec
              "run in both contract-check configurations")
 LEVEL_TEXT = ("Every TETL_PRECONDITION / _SAFE / TETL_ASSERT site of the current headers is re-extracted on every run; a kernel-checked "
               "theorem states that this inventory is exactly the list of guards carried by the Lean models (plus an explicit list "
-              "of sites not modelled).  For 41 operation schemas (element access / front / back / pop / append of static_vector, "
+              "of sites not modelled).  For 45 operation schemas (element access / front / back / push / emplace_back / pop / clear of static_vector over its three storage classes, element access / front / back / pop / append of "
               "inplace_vector, string_view, span, array, inplace_string; optional / expected / variant access; bit functions, div_sat, "
               "chrono day/month, mdspan stride, static_set range constructor) Lean proves, for every capacity, object and argument "
               "(no bound), that the model run equals the specification: a violated documented precondition ends in the handler at "
@@ -76,9 +76,9 @@ LEVEL_NOTE = ("Trusted: Lean kernel + propext/Classical.choice/Quot.sound; the t
               "coverage.unmodelled_sites / correspondence_only.")
 # operations modelled and compared on every run whose equation model = spec is not (yet) a Lean theorem
 CORRESPONDENCE_ONLY = [
-    "static_vector: push_back, emplace_back, pop_back, insert(pos,n,x), insert(pos,const&), insert(pos,&&), emplace, "
+    "static_vector: insert(pos,n,x), insert(pos,const&), insert(pos,&&), emplace, "
     "insert(pos,first,last), erase(pos), erase(first,last), resize(n), resize(n,v), assign(n,v), assign(first,last), "
-    "the three sized constructors, clear (modelled with every nested guard incl. the storage classes; Tetl.C05.Props.Proved = false)",
+    "the three sized constructors (modelled with every nested guard incl. the storage classes; Tetl.C05.Props.Proved = false)",
     "basic_inplace_string: (ptr,len) constructor, assign(ptr,count), push_back, erase(first,last), replace overloads "
     "(replace: known finding F-C05-replace-pre, counterexample theorem only)",
     "bitset / basic_bitset bit accessors, bitset(string_view,pos,n)", "C string null checks (memmove, strcpy, strncpy, strchr, wcscpy, wcsncpy)"]
